@@ -157,6 +157,12 @@ class ImageFormation(HoloPyObject):
         coords = {
             point_or_flat: flattened_schema.coords[point_or_flat],
             vector: ['x', 'y', 'z']}
+        if point_or_flat == 'point':
+            # detector_points carries its positions as non-index
+            # coordinates along 'point'; keep them on the result
+            coords.update({key: val for key, val in
+                           flattened_schema.coords.items()
+                           if val.dims == ('point',)})
         scattered_field = xr.DataArray(
             scattered_field, dims=[point_or_flat, vector], coords=coords,
             attrs=schema.attrs)
